@@ -19,7 +19,7 @@ LEVEL_TEXT = (
     "selections on nested graphs: the call log must stay inside the entry nodes and their descendants, result keys inside declared outputs and "
     "the effective selection, no sentinel / bookkeeping key may appear, and a selected-but-unproduced name is ignored / warned once / an error."
 )
-LEVEL_NOTE = "descendants are computed by the harness from the program (data, control and ordering dependencies); inputs supplied = parameters of active nodes not produced by active nodes"
+LEVEL_NOTE = 'descendants are computed by the harness from the program (data, control and ordering dependencies); inputs supplied = parameters of active nodes not produced by active nodes; every program on both construction paths; None / falsy produced values; prefix-related output names selected in string form; run-then-derive histories'
 RULE = "configurations enumerated exhaustively (quick: N<=2 complete, N=3 a rotating slice); distinct_nontrivial = distinct configurations with an entry-point set or a selection"
 ASSUMPTIONS = ["with entry points configured the outputs of the excluded upstream nodes are supplied by the caller", "values are provenance terms"]
 
